@@ -6,6 +6,7 @@ Decided (the total-derivative structure of the statement, for every wall shape):
     profile of the FINAL wall parameters, dVout_f = 1/2 sum_p dof_p d m_p^2/d phi_f Delta00_{p,i}; the polynomial built from it is
     integrated with weight -dz/dchi; the returned pressure is that integral;
   * chain rule: with constant T and no Delta00 the integrand is d/dz V(phi(z), T) (so its integral is V(low) - V(high) ... exactly).
+  * the weight dz/dchi is the derivative of the position map of the grid (Grid and Grid3Scales; shared with C17).
 Not claimed: equality with V(low)-V(high) numerically (quadrature and finite-difference accuracy, C16 / C19).
 """
 from __future__ import annotations
@@ -48,6 +49,21 @@ def profile_spec(z, f, tag=""):
 def build(chk):
     c_wallProfile(chk)
     c_pressure_tail(chk)
+    c_weight(chk)
+
+
+def c_weight(chk):
+    """The weight handed to the quadrature, dz/dchi from the grid, IS the derivative of the grid's position map (both grid classes):
+    the contract of getCompactificationDerivatives that the pressure tail relies on (obligations shared with C17)."""
+    from . import C17_grids as G
+    from wgvc.api import deriv
+    for module, cls, mk_obj, pre in (("grid", "Grid", G.make_grid, G.GRID_INV + G.CUBE),
+                                     ("grid3Scales", "Grid3Scales", G.make_grid3, G.G3_INV + G.CUBE + [Gt(real("aIn"), 0), Gt(real("aOut"), 0)])):
+        d, j = G._maps(chk, module, cls, mk_obj, pre)
+        (G.grid_crosses if cls == "Grid" else G.grid3_crosses)(chk, d, j)
+        fnq = f"{module}.{cls}.compactificationDerivatives"
+        chk.vc(f"weight.{cls}.dzdchi-is-derivative-of-position-map", d.pc + j.pc, Eq(j.value[0], deriv(d.value[0], G.chi)), func=fnq, kind="lemma")
+        chk.reach(f"weight.{cls}.dzdchi-is-derivative-of-position-map", d.pc + j.pc, func=fnq)
 
 
 def c_wallProfile(chk):
@@ -113,7 +129,8 @@ def c_pressure_tail(chk):
         it.event(kind="minimize", x0=a[1], method=k.get("method"), bounds=k.get("bounds"))
         b = k.get("bounds")
         LAST_MINIMIZE = {"x0": a[1], "lb": b.attrs["lb"] if isinstance(b, SymObj) else None, "ub": b.attrs["ub"] if isinstance(b, SymObj) else None,
-                         "pc": list(it.pc)}
+                         "pc": list(it.pc), "method": k.get("method"), "tol": k.get("tol"), "options": k.get("options"),
+                         "other": sorted(set(k) - {"method", "tol", "options", "bounds", "args"})}
         return SymObj(None, None, attrs={"x": as_array(solx), "fun": it.fresh_real("action_min"), "success": it.fresh_bool("nm_success")}, label="OptimizeResult")
     reg = dict(REG_FIELDS)
     reg.update({"EffectivePotential.derivField": deriv_field, "Particle.msqDerivative": msq_deriv,
